@@ -12,6 +12,7 @@ import (
 	"go/token"
 	"go/types"
 	"sort"
+	"strings"
 
 	"golang.org/x/tools/go/ssa"
 )
@@ -280,19 +281,42 @@ func Anchors(w *World) *SimAnchors {
 	}
 	// helpers: simulator methods called from the executor, other than folds and Report
 	seen := map[*ssa.Function]bool{}
+	helper := func(f *ssa.Function) {
+		if f == nil || f == a.ReadFold || f == a.WriteFold || f == a.ReportFn || f.Signature.Recv() == nil {
+			return
+		}
+		takesInstr := false
+		for _, prm := range f.Params {
+			if typeName(prm.Type()) == "Instruction" {
+				takesInstr = true // an opcode helper is handed the instruction register
+			}
+		}
+		if rt, ok := f.Signature.Recv().Type().(*types.Pointer); ok && types.Identical(rt.Elem(), a.SimT) && !seen[f] && takesInstr {
+			seen[f] = true
+			a.Helpers = append(a.Helpers, f)
+		}
+	}
+	dispatchesByValue := false
 	for _, b := range a.Exec.Blocks {
 		for _, in := range b.Instrs {
 			if c, ok := in.(ssa.CallInstruction); ok {
-				if f := c.Common().StaticCallee(); f != nil && f != a.ReadFold && f != a.WriteFold && f != a.ReportFn && f.Signature.Recv() != nil {
-					takesInstr := false
-					for _, prm := range f.Params {
-						if typeName(prm.Type()) == "Instruction" {
-							takesInstr = true // an opcode helper is handed the instruction register
+				helper(c.Common().StaticCallee())
+				if _, isBuiltin := c.Common().Value.(*ssa.Builtin); c.Common().StaticCallee() == nil && !c.Common().IsInvoke() && !isBuiltin {
+					dispatchesByValue = true
+				}
+			}
+		}
+	}
+	// ... or through a dispatch table the package initialiser fills with method expressions
+	if initFn := w.SLib.Func("init"); dispatchesByValue && initFn != nil {
+		for _, b := range initFn.Blocks {
+			for _, in := range b.Instrs {
+				for _, op := range in.Operands(nil) {
+					if f, ok := (*op).(*ssa.Function); ok {
+						if f.Synthetic != "" && strings.HasSuffix(f.Name(), "$thunk") {
+							f = boundMethod(w, f)
 						}
-					}
-					if rt, ok := f.Signature.Recv().Type().(*types.Pointer); ok && types.Identical(rt.Elem(), a.SimT) && !seen[f] && takesInstr {
-						seen[f] = true
-						a.Helpers = append(a.Helpers, f)
+						helper(f)
 					}
 				}
 			}
